@@ -1094,6 +1094,11 @@ class Machine(object):
                         return dcopy(constval.parse(cv["value"]))
                     except constval.ParseError:
                         pass
+        for p in (c.get("resolved"), c.get("def")):
+            # foreign constants whose type the std / rust-bitcoin models represent differently (a lock time as its
+            # consensus integer): the explicit model wins over rustc's structural value
+            if p and p in builtins.CONSTS and p not in self.hooks:
+                return builtins.CONSTS[p]
         if "value" in e and not self.uninterpreted(c.get("def"), c):
             from . import constval
             key = e["value"]
